@@ -13,14 +13,18 @@ package rsa
 //@   modifies under(c)
 //@   terminates
 
-// A public key component as callers can build it: nil, or a math/big value in normalized
-// representation (invariant of math/big; only Int.SetBits can break it).
-//@ pred okBig(x) = x == nil || bnorm(x)
-// x >= 2 in terms of the representation (x normalized)
+// Public keys are taken as callers can build them: any N and E, including nil, zero and
+// negative values. math/big values are seen through their representation (sign flag neg,
+// magnitude words abs; preds blen = bit length, bnorm = normalized): see
+// /verif/extern/bigint.contracts. The functions below compute in big.Int temporaries of their
+// own, hence `modifies ghost.bigEq, ghost.bigStr` (the ghost relations over big.Int values may
+// change); nothing the caller can see is modified, and ensures speak about the entry state.
+// x >= 2 in terms of the representation
 //@ pred bge2(x) = !x.neg && (len(x.abs) >= 2 || (len(x.abs) == 1 && x.abs[0] >= 2))
-//@ pred okPub(pub) = pub != nil && okBig(pub.N) && okBig(pub.E)
+//@ pred okPub(pub) = pub != nil
 
-// Size: the modulus size in bytes, ceil(bitlen(N)/8). Panics on a missing modulus.
+// Size (documented: "returns the modulus size in bytes"): ceil(bitlen(N)/8). Panics on a
+// missing modulus (precondition; every exported caller under contract runs checkPub first).
 //@ func (*PublicKey).Size
 //@   requires pub != nil && pub.N != nil
 //@   ensures  result == (blen(pub.N) + 7) / 8 && 0 <= result && result <= 1<<48
@@ -35,14 +39,17 @@ package rsa
 //@   terminates
 
 // encrypt: c = m^E mod N as a k-byte big-endian string, k = Size(); error when m >= N.
-// Needs N and E present and E not negative (Exp returns nil for a negative exponent without
-// inverse); a zero or negative N is answered with an error.
+// Needs N and E present and E not negative (big.Int.Exp returns nil for a negative exponent
+// without inverse, and encrypt would dereference it); both are established by checkPub in
+// every caller. A zero or negative N is answered with an error (m >= N for every m >= 0), so
+// Exp is only reached with N > 0 and its result fits Size() bytes (slice.1).
 //@ func encrypt
 //@   requires okPub(pub) && pub.N != nil && pub.E != nil && !pub.E.neg
-//@   ensures  result1 == nil ==> len(result0) == (blen(pub.N) + 7) / 8 && fresh(result0) && result0 != nil
-//@   ensures  result1 == nil ==> !pub.N.neg && len(pub.N.abs) > 0
+//@   ensures  result1 == nil ==> len(result0) == old((blen(pub.N) + 7) / 8) && fresh(result0) && result0 != nil
+//@   ensures  result1 == nil ==> old(!pub.N.neg && len(pub.N.abs) > 0)
 //@   ensures  result1 != nil ==> result0 == nil
-//@   ensures  (pub.N.neg || len(pub.N.abs) == 0) ==> result1 != nil
+//@   ensures  old(pub.N.neg || len(pub.N.abs) == 0) ==> result1 != nil
+//@   modifies ghost.bigEq, ghost.bigStr
 //@   terminates
 
 // ---------------------------------------------------------------- pkcs1v15.go
@@ -62,10 +69,11 @@ package rsa
 // modulus minus 11 bytes"; C23: a malformed key gives an error, never a panic).
 //@ func EncryptPKCS1v15
 //@   requires okPub(pub) && random != nil
-//@   ensures  [malformed] (pub.N == nil || pub.E == nil || !bge2(pub.E) || pub.N.neg || len(pub.N.abs) == 0) ==> result1 != nil
-//@   ensures  [toolong] pub.N != nil && len(msg) > (blen(pub.N) + 7) / 8 - 11 ==> result1 != nil
-//@   ensures  [size] result1 == nil ==> len(result0) == (blen(pub.N) + 7) / 8
+//@   ensures  [malformed] old(pub.N == nil || pub.E == nil || !bge2(pub.E) || pub.N.neg || len(pub.N.abs) == 0) ==> result1 != nil
+//@   ensures  [toolong] old(pub.N != nil && len(msg) > (blen(pub.N) + 7) / 8 - 11) ==> result1 != nil
+//@   ensures  [size] result1 == nil ==> len(result0) == old((blen(pub.N) + 7) / 8)
 //@   ensures  result1 != nil ==> result0 == nil
+//@   modifies ghost.bigEq, ghost.bigStr
 
 // Length of the DigestInfo prefix used for a hash (none when the data is signed directly).
 //@ pred pfxLen(h) = ite(h == 0, 0, len(hashPrefixes[h]))
@@ -85,15 +93,18 @@ package rsa
 //@   ensures  [short] (blen(pub.N) + 7) / 8 < pfxLen(hash) + len(hashed) + 11 ==> result1 != nil
 //@   ensures  [unsupported] hash != 0 && !has(hashPrefixes, hash) ==> result1 != nil
 //@   ensures  result1 != nil ==> result0 == nil
+//@   uses perreturn
 //@   terminates
 
 // RSASSA-PKCS1-V1_5-VERIFY (RFC 8017 8.2.2): "If the length of the signature S is not k
-// octets ... output invalid signature". C23: a malformed key gives an error, not a panic -
-// the code calls neither checkPub nor any other test of N and E, see notes (defect).
+// octets ... output invalid signature". C23: a malformed key (missing N or E, E < 2, N <= 0)
+// gives an error, not a panic. (Before the fix 818b779 the code did not call checkPub and
+// panicked on a nil N, a nil E, and a negative E without inverse; see notes.)
 //@ func VerifyPKCS1v15
 //@   requires okPub(pub) && knownHash(hash)
-//@   ensures  [siglen] result == nil ==> len(sig) == (blen(pub.N) + 7) / 8
-//@   ensures  [modulus] result == nil ==> !pub.N.neg && len(pub.N.abs) > 0
+//@   ensures  [siglen] result == nil ==> old(len(sig) == (blen(pub.N) + 7) / 8)
+//@   ensures  [malformed] old(pub.N == nil || pub.E == nil || !bge2(pub.E) || pub.N.neg || len(pub.N.abs) == 0) ==> result != nil
+//@   modifies ghost.bigEq, ghost.bigStr
 //@   terminates
 
 // ---------------------------------------------------------------- rsa.go (MGF1)
@@ -141,11 +152,15 @@ package rsa
 
 // VerifyPSS (RFC 8017 8.1.2: "If the length of the signature S is not k octets, output
 // invalid signature"; documented: a SaltLength below -1 is an error). C23: a malformed key
-// gives an error, not a panic - the code never checks N and E, see notes (defect).
+// (missing N or E, E < 2, N <= 0) gives an error, not a panic. (Before the fix 818b779 the
+// code did not call checkPub; see notes.) The bound on SaltLength is a precondition: larger
+// values overflow hLen + sLen + 2 in emsaPSSVerify and panic (candidate defect, see notes).
 //@ func VerifyPSS
 //@   requires okPub(pub) && 1 <= hash && hash < 20 && (opts != nil ==> opts.SaltLength <= 1<<40)
 //@   loop 1 invariant fresh(em) && em != nil
 //@   loop 1 decreases len(em)
-//@   ensures  [siglen] result == nil ==> len(sig) == (blen(pub.N) + 7) / 8
-//@   ensures  [modulus] result == nil ==> !pub.N.neg && len(pub.N.abs) > 0
-//@   ensures  [saltlen] opts != nil && opts.SaltLength < -1 ==> result != nil
+//@   ensures  [siglen] result == nil ==> old(len(sig) == (blen(pub.N) + 7) / 8)
+//@   ensures  [malformed] old(pub.N == nil || pub.E == nil || !bge2(pub.E) || pub.N.neg || len(pub.N.abs) == 0) ==> result != nil
+//@   ensures  [saltlen] old(opts != nil && opts.SaltLength < -1 && pub.N != nil && pub.E != nil && bge2(pub.E) && len(sig) == (blen(pub.N) + 7) / 8) ==> result == invalidSaltLenErr
+//@   ensures  [saltlen2] old(opts != nil && opts.SaltLength < -1) ==> result != nil
+//@   modifies ghost.bigEq, ghost.bigStr
